@@ -204,11 +204,22 @@ func workerCountOK(e *Engine, ws workerSite) bool {
 	if !ok {
 		return false
 	}
-	facts := []*BoolVal{{Op: ">=", A: formAtom("parallelism"), B: formInt(1)}}
+	premise := &BoolVal{Op: ">=", A: formAtom("parallelism"), B: formInt(1)}
+	facts := []*BoolVal{premise}
+	var plain []*BoolVal
 	for _, c := range ws.Conds {
 		cc := *c
 		cc.Src, cc.Exact = nil, nil
 		facts = append(facts, &cc)
+		plain = append(plain, &cc)
+	}
+	// a path taken only for parallelism < 1 (a "0 means automatic" default) is outside the premise
+	if e.refutes(plain, premise) {
+		return true
+	}
+	// runtime.GOMAXPROCS(0) and runtime.NumCPU() are at least 1
+	if an, isA := n.SingleAtom(); isA && (strings.HasPrefix(an, "call:runtime.GOMAXPROCS(") || strings.HasPrefix(an, "call:runtime.NumCPU(")) {
+		return true
 	}
 	good, _ := e.proveGE0(n.Sub(formInt(1)), e.factsOf(facts))
 	return good
@@ -666,8 +677,17 @@ func checkConvertHelper(p *Program, r *Report, name, target string) {
 			// identity arm: returns the input itself, no calls, no stores
 			n := 0
 			for _, ev := range o.St.events {
-				if ev.Kind == "call" || ev.Kind == "invoke" || ev.Kind == "store" {
+				if ev.Kind == "store" {
 					n++
+				}
+				if ev.Kind == "call" || ev.Kind == "invoke" {
+					// what is done with (or to) the image counts; reading the environment does not
+					for _, v := range append([]Val{ev.Recv}, ev.Args...) {
+						if v != nil && strings.Contains(valKey(v), "img") {
+							n++
+							break
+						}
+					}
 				}
 			}
 			op, _ := o.Ret.(*Opaque)
@@ -939,16 +959,17 @@ func checkConvertArm(p *Program, r *Report, key, arm, target string, ws workerSi
 			}
 		}
 		r.Check(good, rule, key, ws.Pos, "SetRGBA64(j, i, RGBA64 of the input pixel's RGBA())", why)
-	case "*image.YCbCr→*image.NRGBA":
+	case "*image.YCbCr→*image.NRGBA", "*image.YCbCr→*image.RGBA":
 		at := find(").YCbCrAt")
 		conv := find("color.YCbCrToRGB")
-		set := find(").SetNRGBA")
+		tnm := strings.TrimPrefix(target, "*image.")
+		set := find(").Set" + tnm)
 		yo, co := find("(*image.YCbCr).YOffset"), find("(*image.YCbCr).COffset")
 		planes := at == nil && yo != nil && co != nil
 		good := (at != nil || planes) && conv != nil
 		why := "expected per pixel: YCbCrAt(j,i) (or the planes at YOffset/COffset(j,i)), color.YCbCrToRGB and one write of {r, g, b, 255} at (j,i)"
 		for _, ev := range cf.Calls {
-			if !(strings.HasSuffix(ev.Fn, ").YCbCrAt") || strings.HasSuffix(ev.Fn, "color.YCbCrToRGB") || strings.HasSuffix(ev.Fn, ").SetNRGBA") || strings.HasSuffix(ev.Fn, ".PixOffset") ||
+			if !(strings.HasSuffix(ev.Fn, ").YCbCrAt") || strings.HasSuffix(ev.Fn, "color.YCbCrToRGB") || strings.HasSuffix(ev.Fn, ").Set"+tnm) || strings.HasSuffix(ev.Fn, ".PixOffset") ||
 				planes && (strings.HasSuffix(ev.Fn, "(*image.YCbCr).YOffset") || strings.HasSuffix(ev.Fn, "(*image.YCbCr).COffset"))) {
 				good, why = false, "unexpected call "+ev.Fn
 			}
@@ -987,7 +1008,7 @@ func checkConvertArm(p *Program, r *Report, key, arm, target string, ws workerSi
 				why = "NRGBA must be {r, g, b, 255} of YCbCrToRGB positionally, set at (j,i); got " + trunc(valKey(sa[3]), 160)
 			case set == nil && len(cf.Stores) == 4 && len(tp) == 3:
 				// direct stores out.Pix[PixOffset(j,i)+k] = r, g, b, 255 (what SetNRGBA does)
-				wantOut, okW := e.pixOffsetForm(ws.ParentSt, newEv.Res, imagePtrType(p, "NRGBA"), 4, j, i)
+				wantOut, okW := e.pixOffsetForm(ws.ParentSt, newEv.Res, imagePtrType(p, tnm), 4, j, i)
 				outPix := ""
 				if op, ok := newEv.Res.(*Ptr); ok && op.Cell != nil {
 					outPix = fmt.Sprintf("newimg#%d.Pix", op.Cell.ID)
@@ -1009,7 +1030,7 @@ func checkConvertArm(p *Program, r *Report, key, arm, target string, ws workerSi
 				good, why = false, "the pixel is not written exactly once as {r, g, b, 255}"
 			}
 		}
-		r.Check(good, rule, key, ws.Pos, "output pixel (j,i) = NRGBA{YCbCrToRGB(Y,Cb,Cr), 255} (SetNRGBA or the four Pix bytes)", why)
+		r.Check(good, rule, key, ws.Pos, "output pixel (j,i) = {YCbCrToRGB(Y,Cb,Cr), 255} (Set"+tnm+" or the four Pix bytes; opaque, so premultiplied and straight alpha coincide)", why)
 	case "*image.Gray→*image.NRGBA", "*image.Gray→*image.RGBA":
 		// draw.Src of a grey pixel into (N)RGBA is {Y, Y, Y, 255} (color.Gray.RGBA is opaque with r=g=b)
 		tname := strings.TrimPrefix(target, "*image.")
